@@ -285,6 +285,61 @@ impl Check for C03Check {
                 }
             }
         }
+        // the dispatch tables called directly (they are public default methods of the listener
+        // trait): every final x parameter lists of length 0..=3 x private flag
+        if cx.shard == 0 && cx.begin_group("direct dispatch") {
+            use memterm::parser_listener::ParserListener;
+            for f in (0x20u8..=0x7e).map(|b| b as char) {
+                for params in [vec![], vec![0u32], vec![5], vec![5, 12], vec![0, 0], vec![7, 8, 9], vec![9999, 1]] {
+                    for private in [false, true] {
+                        let mut rec = crate::call::Rec::new();
+                        let r = catch(|| rec.csi_dispatch(&f.to_string(), &params, private));
+                        let want: Vec<Call> = crate::refparser::ref_dispatch(f, &params, private).into_iter().collect();
+                        cx.stats.clause("dispatch-table");
+                        cx.stats.eval(&format!("dispatch|{}|n{}|{}", f, params.len(), private), true);
+                        let got = rec.ev.clone();
+                        let same = r.is_ok() && crate::refparser::norm_log(&got) == crate::refparser::norm_log(&want);
+                        if !same {
+                            let mut c = Case::new("C03", "dispatch", 1, 1, PK::None);
+                            c.aux = json!({"final": f.to_string(), "params": params, "private": private});
+                            cx.violation(Viol {
+                                prop: "C03".into(),
+                                clause: "dispatch-table".into(),
+                                op: "csi_dispatch".into(),
+                                bucket: format!("{}|n{}", f, params.len()),
+                                detail: format!("csi_dispatch({:?}, {:?}, {}): expected {:?}, observed {:?} (panic: {:?})", f, params, private, want, got, r.err().map(|p| p.msg)),
+                                case: c,
+                            });
+                        }
+                    }
+                }
+            }
+            // escape_dispatch / basic_dispatch for every character
+            for b in 0u8..=0x7e {
+                let ch = (b as char).to_string();
+                let mut rec = crate::call::Rec::new();
+                let _ = catch(|| rec.escape_dispatch(&ch));
+                let mut r = RefParser::new(false);
+                r.feed(&format!("\x1b{}", ch));
+                let want: Vec<Call> = if "[]#%()".contains(b as char) { vec![] } else { r.out.iter().filter_map(|e| if let crate::refparser::Exp::Ev(c) = e { Some(c.clone()) } else { None }).collect() };
+                cx.stats.clause("dispatch-table");
+                if crate::refparser::norm_log(&rec.ev) != crate::refparser::norm_log(&want) {
+                    let mut c = Case::new("C03", "dispatch", 1, 1, PK::None);
+                    c.aux = json!({"escape": ch});
+                    cx.violation(Viol { prop: "C03".into(), clause: "dispatch-table".into(), op: "escape_dispatch".into(), bucket: format!("0x{:02x}", b), detail: format!("escape_dispatch({:?}): expected {:?}, observed {:?}", ch, want, rec.ev), case: c });
+                }
+                let mut rec = crate::call::Rec::new();
+                let _ = catch(|| rec.basic_dispatch(&ch));
+                let mut r = RefParser::new(false);
+                r.feed(&ch);
+                let want: Vec<Call> = if b < 0x20 && b != 0x1b { r.out.iter().filter_map(|e| if let crate::refparser::Exp::Ev(Call::Draw(_)) = e { None } else if let crate::refparser::Exp::Ev(c) = e { Some(c.clone()) } else { None }).collect() } else { vec![] };
+                if crate::refparser::norm_log(&rec.ev) != crate::refparser::norm_log(&want) {
+                    let mut c = Case::new("C03", "dispatch", 1, 1, PK::None);
+                    c.aux = json!({"basic": ch});
+                    cx.violation(Viol { prop: "C03".into(), clause: "dispatch-table".into(), op: "basic_dispatch".into(), bucket: format!("0x{:02x}", b), detail: format!("basic_dispatch({:?}): expected {:?}, observed {:?}", ch, want, rec.ev), case: c });
+                }
+            }
+        }
         // every single character from ground
         if cx.shard == 0 {
             for c in ALPHABET {
@@ -382,6 +437,18 @@ impl Check for C03Check {
         }
     }
     fn replay(&self, case: &Case, cx: &mut Ctx) {
+        if case.kind == "dispatch" {
+            // table entries are re-checked by the (cheap, deterministic) enumeration itself
+            let mut c2 = Ctx::new(Tier::Quick, 1, 0, 1, std::time::Duration::from_secs(5));
+            c2.only_group = None;
+            self.shard(&mut c2);
+            for (_, (v, _)) in c2.stats.viols {
+                if v.clause == "dispatch-table" {
+                    cx.violation(v);
+                }
+            }
+            return;
+        }
         let utf8 = case.aux["utf8"].as_bool().unwrap_or(true);
         for op in &case.ops {
             if let Op::Feed(s) = op {
